@@ -215,7 +215,7 @@ def check(run):
         run.add_corr_break("G: " + gerr)
     sticky, sdesc, serr = scan_switch()
     if serr:
-        run.add_corr_break("G: " + serr)
+        run.add_corr_break("G: " + serr, shape=True)
     else:
         write_switch(sticky)
     run.proof = core.proof_step(PROP, run.tier)
